@@ -16,12 +16,13 @@ TInit ==
   /\ t0 \in Starts /\ l = t0
   /\ phase = "idle" /\ layer = "clear" /\ bits = {} /\ clearOut = <<>> /\ pendClear = <<>> /\ pendTLS = <<>>
   /\ used = <<>> /\ sni = "none" /\ result = "none"
-  /\ script = [feat |-> "empty", answer |-> "eof", inject |-> "none", hs |-> "fail", cfg |-> "explicit"]
+  /\ script = Full([feat |-> "empty", answer |-> "eof", inject |-> "none", hs |-> "fail", cfg |-> "explicit"], Plain(1), <<>>)
 
 TrReset ==
   /\ l = t0 /\ IsEv("reset")
   /\ LET s == Trace[l].script IN
-     script' = [feat |-> s.feat, answer |-> s.answer, inject |-> s.inject, hs |-> s.hs, cfg |-> s.cfg]
+     /\ s.addr \in Addrs /\ \A i \in 1..Len(s.hist) : s.hist[i] \in Addrs
+     /\ script' = Full(s, s.addr, s.hist)
   /\ phase' = "start"
   /\ UNCHANGED <<layer, bits, clearOut, pendClear, pendTLS, used, sni, result>>
 
